@@ -154,7 +154,7 @@ def job_superposition(ctx: Ctx, ns, npp):
     ctx.bounds.update(dict(points=2, s_centres=ns, p_centres=npp, all="symbolic"))
     key = "coulomb_potential:superposition"
 
-    def replay(m):
+    def replay(m, normalized=True):
         with unpatched(co):
             import scipy.special
             co.erf = scipy.special.erf
@@ -168,13 +168,13 @@ def job_superposition(ctx: Ctx, ns, npp):
                 if npp:
                     kw = dict(centers_p=np.array([[g(f"cp{j}_{a}", -0.1 * j) for a in range(3)] for j in range(npp)]), coeffs_p=np.array([g(f"kp{j}", 1.0) for j in range(npp)]),
                               alphas_p=np.array([g(f"ap{j}", 1.0) for j in range(npp)]))
-                got = co.coulomb_potential(P, CS, KS, AS, **kw)
+                got = co.coulomb_potential(P, CS, KS, AS, normalized=normalized, **kw)
                 want = np.zeros(2)
                 for c, a, ctr in zip(KS, AS, CS):
-                    want += c * co.coulomb_gaussian_s(np.linalg.norm(P - ctr, axis=1), a)
+                    want += c * co.coulomb_gaussian_s(np.linalg.norm(P - ctr, axis=1), a, normalized=normalized)
                 if npp:
                     for c, a, ctr in zip(kw["coeffs_p"], kw["alphas_p"], kw["centers_p"]):
-                        want += c * co.coulomb_gaussian_p(np.linalg.norm(P - ctr, axis=1), a)
+                        want += c * co.coulomb_gaussian_p(np.linalg.norm(P - ctr, axis=1), a, normalized=normalized)
                 return not np.allclose(got, want, rtol=1e-12), dict(returned=got.tolist(), weighted_sum=want.tolist())
             finally:
                 co.erf = _erf
@@ -199,7 +199,8 @@ def job_superposition(ctx: Ctx, ns, npp):
                 continue
             V, exp = p.result
             for i in range(2):
-                ctx.eq(f"V[{i}] == sum_j c_j V_s(|x - R_j|) + sum_k c_k V_p(|x - R_k|)  (normalized={normalized})", V[i], exp[i], p.pc, replay=replay, key=key)
+                ctx.eq(f"V[{i}] == sum_j c_j V_s(|x - R_j|) + sum_k c_k V_p(|x - R_k|)  (normalized={normalized})", V[i], exp[i], p.pc,
+                       replay=(lambda m, nz=normalized: replay(m, nz)), key=key)
 
 
 def job_table(ctx: Ctx):
@@ -222,6 +223,9 @@ def job_table(ctx: Ctx):
                 bad.append((repr(arg), "accepted although not in the table"))
             elif c.shape != a.shape or c.ndim != 1 or len(a) == 0 or not np.all(a > 0) or not np.all(np.isfinite(c)) or list(a) != list(raw[sym_]["alphas_s"]) or list(c) != list(raw[sym_]["coeffs_s"]):
                 bad.append((repr(arg), "arrays do not match the table / non-positive exponent"))
+            if sym_ in raw:      # a caller may edit what it got; the next load must still return the shipped values
+                c *= -2.0
+                a *= -1.0
     (ctx.ok if not bad else ctx.fail)(f"all {len(sym2num)} element symbols and numbers load matching arrays of positive exponents (5 spellings each)", detail=str(bad[:3]), key="load_atomic_gaussian_params",
                                       replay=(lambda m: (True, dict(first=bad[:3]))), **({} if not bad else dict(model={})))
     for arg, exc in ((0, ValueError), (119, ValueError), ("Xx", ValueError), (1.5, TypeError)):
